@@ -1,7 +1,7 @@
 (* C10 — All input back-ends behave identically.  (theorems: Proofs/InputRefine.v) *)
 From Coq Require Import List NArith Bool.
 Import ListNotations.
-Require Import Parser SBase SFetch Pipe SBuf InputRefine ScanWP ScanSafeTop.
+Require Import Parser SBase SFetch Pipe SBuf InputRefine ScanWP ScanSafeTop ScanRelTop ScanRelAll.
 Open Scope nat_scope.
 
 (* Per-operation refinement between the buffered input of any capacity and the string input: related states
@@ -21,3 +21,35 @@ Theorem C10_lookahead_discipline : forall cap, (8 <= cap)%nat -> forall input n,
   snd (run_buf cap input) <> PPanic n.
 Proof. exact pipeline_never_panics_buffered. Qed.
 Print Assumptions C10_lookahead_discipline.
+
+(* VALUE LEVEL.  For every input and every capacity >= 8, the scanner model over the buffered input and over the
+   string input deliver the same token list (same kinds, text, spans) and the same end (SEnded, or the same error
+   site at the same marker) - for ALL fuels; the only escape is a run that breaks off (fuel; the buffered side never
+   panics by C10_lookahead_discipline), and then the run that broke off has delivered a PREFIX of the other one.
+   scan_agree r1 r2 := r1 = r2 \/ (se_bad (snd r1) /\ fst r1 prefix of fst r2) \/ (se_bad (snd r2) /\ fst r2 prefix of fst r1). *)
+Theorem C10_scanner_backends_agree : forall (orig : list chr) cap, (8 <= cap)%nat -> forall F K,
+  scan_agree (scan_all str_ops F K (init_sc {| si_chars := orig; si_look := 0 |}) [])
+             (scan_all (buf_ops cap) F K (init_sc {| b_buf := []; b_rest := orig |}) []).
+Proof. exact scan_backends_agree. Qed.
+Print Assumptions C10_scanner_backends_agree.
+
+Theorem C10_scanner_backends_equal : forall (orig : list chr) cap, (8 <= cap)%nat -> forall F K,
+  se_proper (snd (scan_all str_ops F K (init_sc {| si_chars := orig; si_look := 0 |}) [])) ->
+  se_proper (snd (scan_all (buf_ops cap) F K (init_sc {| b_buf := []; b_rest := orig |}) [])) ->
+  scan_all str_ops F K (init_sc {| si_chars := orig; si_look := 0 |}) [] =
+  scan_all (buf_ops cap) F K (init_sc {| b_buf := []; b_rest := orig |}) [].
+Proof. exact scan_backends_equal. Qed.
+Print Assumptions C10_scanner_backends_equal.
+
+(* The whole pipelines (scanner + parser): same events with the same spans and the same end (PDone, or the same
+   scan / parse error at the same marker), unless the string run ends in fuel or panic, or the buffered run in fuel. *)
+Theorem C10_pipeline_backends_agree : forall (orig : list N) cap, (8 <= cap)%nat ->
+  run_str orig = run_buf cap orig \/ pend_bad (snd (run_str orig)) \/ snd (run_buf cap orig) = PFuel.
+Proof. exact pipeline_backends_agree. Qed.
+Print Assumptions C10_pipeline_backends_agree.
+
+(* non-vacuity: a run where both sides end properly and agree *)
+Example C10_agree_example :
+  run_str [97; 58; 32; 91; 98; 44; 32; 34; 99; 34; 93; 10]%N = run_buf 8 [97; 58; 32; 91; 98; 44; 32; 34; 99; 34; 93; 10]%N
+  /\ snd (run_str [97; 58; 32; 91; 98; 44; 32; 34; 99; 34; 93; 10]%N) = PDone.
+Proof. vm_compute. split; reflexivity. Qed.
